@@ -1,6 +1,7 @@
 package sctp
 
 import (
+	"strings"
 	"context"
 	"encoding/binary"
 	"fmt"
@@ -270,6 +271,15 @@ func hostileAlphabet(p *scripted) []hostilePkt {
 	add("DATA/wrongkind", false, p.dataChunk(peerLast+1, 1, seq, 0, 53, 3, []byte("wrong-kind"), map[bool]int{false: 2, true: 1}[p.il]))
 	add("DATA/wrongkind-dup", false, p.dataChunk(peerLast, 1, seq, 0, 53, 3, []byte("wrong-kind"), map[bool]int{false: 2, true: 1}[p.il]))
 	// FORWARD-TSN family
+	var curSSN uint16
+	var curMID uint32
+	if p.a != nil {
+		p.a.lock.RLock()
+		if st := p.a.streams[1]; st != nil {
+			curSSN, curMID = st.reassemblyQueue.nextSSN, st.reassemblyQueue.nextMID
+		}
+		p.a.lock.RUnlock()
+	}
 	for _, f := range []struct {
 		n      string
 		v      uint32
@@ -278,7 +288,13 @@ func hostileAlphabet(p *scripted) []hostilePkt {
 		for _, ss := range []struct {
 			n string
 			s []wFwdStream
-		}{{"none", nil}, {"known", []wFwdStream{{SID: 1, SSN: uint16(seq), MID: seq}}}, {"unknown", []wFwdStream{{SID: 777, SSN: 5, MID: 5}}}, {"dup", []wFwdStream{{SID: 1, SSN: 1, MID: 1}, {SID: 1, SSN: 9, MID: 9}, {SID: 1, SSN: 3, MID: 3, Unordered: true}}}} {
+		}{{"none", nil}, {"known", []wFwdStream{{SID: 1, SSN: uint16(seq), MID: seq}}}, {"unknown", []wFwdStream{{SID: 777, SSN: 5, MID: 5}}}, {"dup", []wFwdStream{{SID: 1, SSN: 1, MID: 1}, {SID: 1, SSN: 9, MID: 9}, {SID: 1, SSN: 3, MID: 3, Unordered: true}}},
+			// a sequence number the reader has passed already (what a peer reports that still counts an
+			// earlier incarnation of the stream; two behind the reader's cursor, serially also when that is 0 or 1):
+			// the cursor must not move backwards
+			{"stale", []wFwdStream{{SID: 1, SSN: curSSN - 2, MID: curMID - 2}}}} {
+
+
 			if p.il {
 				add(fmt.Sprintf("IFWD/%s/%s", f.n, ss.n), f.ignore, chunkBytes(wIFWDTSN, 0, wIFwdVal(f.v, ss.s)))
 			} else {
@@ -417,8 +433,27 @@ func c03Scenario(spec *c03Spec, names *[]string) *Scenario {
 				if p.a != nil {
 					before = snapAssoc(p.a)
 				}
+				cursor := func() string {
+					if p.a == nil {
+						return ""
+					}
+					p.a.lock.RLock()
+					defer p.a.lock.RUnlock()
+					if st := p.a.streams[1]; st != nil {
+						return fmt.Sprintf("ssn=%d mid=%d", st.reassemblyQueue.nextSSN, st.reassemblyQueue.nextMID)
+					}
+					return ""
+				}
+				cur0 := cursor()
 				steps0 := m.S.Steps()
 				p.inject(h.raw)
+				if strings.HasSuffix(h.name, "/stale") || (strings.Contains(h.name, "FWD/") && (strings.HasSuffix(h.name, "/none") || strings.HasSuffix(h.name, "/unknown"))) {
+					// a skip report that names no sequence number of stream 1 ahead of its reader
+					// leaves the reader's cursor where it is
+					if cur1 := cursor(); cur0 != "" && cur1 != "" && cur1 != cur0 {
+						m.Failf("hostile.cursor", "%s (base %s) moved the read cursor of stream 1 although it reports nothing ahead of it: %s -> %s; what the peer sends next on the stream is acknowledged and never readable", h.name, spec.base.name, cur0, cur1)
+					}
+				}
 				if d := m.S.Steps() - steps0; d > 20000 {
 					m.Failf("hostile.spin", "processing %s took %d scheduling steps", h.name, d)
 				}
